@@ -15,13 +15,13 @@ var mixC02 = Mix{Set: 30, Delete: 10, GetItem: 3, Visit: 2, Flush: 14, Evict: 4,
 func init() {
 	register(&Prop{
 		ID: "C02", Level: "exploration",
-		Rule: "case = random history over 2-4 collections (plain and exotic names, boundary key/value sizes) with Flush density 5-30%, collection creation/removal between flushes, Collection.Write(), evictions, flushes that FAIL on one of their writes (outright or torn) and are retried, occasional FlushRevert (the expected durable state is then the flush before), and 0-5 re-opens after which the history continues on the re-opened store. After every successful Flush, after each of the following 6 steps, at every re-open and at the end, a SECOND store is opened on a copy of the current file image and its complete state (collection names, keys, values, priorities, totals, min/max) is compared with the model's state at the most recent successful Flush; the same image is decoded by the independent decoder. Unflushed work (incl. created/removed collections) must never be visible there. Non-trivial = at least two flushes with mutations between them, unflushed changes pending at some re-open comparison, and a collection created or removed; distinct = distinct op-trace hash.",
+		Rule: "case = random history over 2-4 collections (plain and exotic names, boundary key/value sizes) with Flush density 5-30%, collection creation/removal between flushes, Collection.Write(), evictions, flushes that FAIL on one of their writes (outright or torn) and are retried, occasional FlushRevert (the expected durable state is then the flush before), and 0-5 re-opens after which the history continues on the re-opened store. After every successful Flush, after each of the following 6 steps, at every re-open and at the end, a SECOND store is opened on a copy of the current file image and its complete state (collection names, keys, values, priorities, totals, min/max) is compared with the model's state at the most recent successful Flush; the same image is decoded by the independent decoder. Unflushed work (incl. created/removed collections) must never be visible there. Concurrent cases: the flusher runs next to the mutator under the deterministic scheduler and every image it produced must decode to versions that were current during that Flush. Non-trivial = at least two flushes with mutations between them, unflushed changes pending at some re-open comparison, and a collection created or removed; distinct = distinct op-trace hash.",
 		Assumptions: []string{"collection names are valid UTF-8 (invalid UTF-8 names are a recorded input class)", "single goroutine",
 			"a Flush that returned an error is not a successful Flush: its (possibly complete) root record is not an expected durable state; the full enumeration of fault points is C07's"},
-		NumCases: func(tier string) int { return pick(tier, 1000, 40000) },
+		NumCases: func(tier string) int { return pick(tier, 1000, 40000) + pick(tier, 300, 9000) },
 		Run:      runC02,
 		Floor: func(tier string, st map[string]int64) string {
-			for _, k := range []string{"op.Flush", "op.Reopen", "reopen-compares", "decodes", "op.RemoveCollection", "op.CollWrite", "c02.pending-at-compare", "failed-flushes", "retried-flushes"} {
+			for _, k := range []string{"op.Flush", "op.Reopen", "reopen-compares", "decodes", "op.RemoveCollection", "op.CollWrite", "c02.pending-at-compare", "failed-flushes", "retried-flushes", "c02.concurrent-flush-cases"} {
 				if st[k] == 0 {
 					return "no " + k + " observed"
 				}
@@ -35,6 +35,15 @@ func runC02(ctx *Ctx, idx int) Result {
 	seed := CaseSeed(ctx.Seed, "C02", idx)
 	r := gen.New(seed)
 	SeedGlobalRand(seed)
+	if idx >= pick(ctx.Tier, 1000, 40000) {
+		// Flush running next to the mutator: what it made durable must be a state that was current during it
+		res := runC14Concurrent(ctx, idx, r)
+		if res.Viol != nil {
+			res.Viol.Sig = "C02/" + res.Viol.Sig
+		}
+		ctx.Stats["c02.concurrent-flush-cases"]++
+		return res
+	}
 	cfg := driver.Config{ReadbackK: []int{0, 3, 9}[r.Intn(3)], ReopenCheck: true, Decode: true}
 	mix := mixC02
 	mix.Flush = r.Range(5, 30)
